@@ -5,7 +5,8 @@ cd /repo || exit 3
 git diff --quiet || { echo "/repo dirty"; exit 3; }
 git apply "$P" || { echo "patch does not apply"; exit 3; }
 cd /verif
-OUT=$(./vcheck $ID $TIER 2>&1); RC=$?
+trap 'git -C /repo checkout -- . ; echo "muttest interrupted: /repo restored"' INT TERM
+OUT=$(timeout 900 ./vcheck $ID $TIER 2>&1); RC=$?
 echo "$OUT" | grep -E "VIOLATION|BUILD FAILURE|^\[C|INCONCLUSIVE" | head -5
 echo "$OUT" | grep -A3 "sub-check" | head -8
 git -C /repo checkout -- . 
